@@ -268,8 +268,10 @@ def gen_queries(rng, case, nq=4):
             q = dict(hist=hist, B=B, idx=None)
         elif r < 0.40:
             q = dict(hist=hist, B=B, idx=rng.randint(-T - 1, T))
-        elif r < 0.75:
+        elif r < 0.70:
             q = dict(hist=hist, B=B, idx=[rng.randint(-T - 1, T) for _ in range(B)])
+        elif r < 0.75:  # a one-element index vector is squeezed to a scalar
+            q = dict(hist=hist, B=B, idx=[rng.randint(-T - 1, T)])
         elif r < 0.95:
             q = dict(hist=hist, B=B, idx=None, chunk=rng.choice([1, 2, 3, T + 1, T + 3]))
         else:  # the documented failure modes of idx / chunk_size
@@ -901,7 +903,7 @@ def run(chk, cases=None):
             owners.append((ci, 0))
             chk.note_case(case, True, stream)
             chk.count("arpa=" + ("raises" if isinstance(out, str) else "ok") + ("/base-e" if case["base_e"] else "/base-10" if case["base_e"] is False else "/base-default"))
-    flags = coq_eval_bools(chk.workdir, IMPORTS, terms)
+    flags = coq_eval_bools(chk.workdir, IMPORTS, terms, shard=100)
     by_case = {}
     for (ci, k), ok in zip(owners, flags):
         by_case.setdefault(ci, {})[k] = ok
